@@ -21,7 +21,7 @@ TREES = {
 }
 SCENARIOS = ["stage-transfer", "index-save", "store-transfer", "upload", "verify-transfer",
              "index-save-2fs", "index-save-verify", "verify-transfer-dir", "index-save-2caches", "bulk-transfer",
-             "stage-transfer-legacy"]
+             "stage-transfer-legacy", "store-transfer-src-partial"]
 MEM_ROOT = "memory://c15-second-fs"
 
 
@@ -72,12 +72,18 @@ def setup(root, cfg):
     if cfg["initial"] == "half":
         first = sorted(listing(t).values())[0]
         put_raw(odb, first, [CONTENTS[c] for c in TREES[t].values() if MD5[c] == first][0])
-    if cfg["scenario"] in ("store-transfer", "verify-transfer"):
+    if cfg["scenario"] in ("store-transfer", "verify-transfer", "store-transfer-src-partial"):
         src = make_odb("local", os.path.join(root, "src"))
         first_file = sorted(listing(t).values())[-1]
+        partial_file = sorted(o for o, dta in all_objects(t).items() if dta and not o.endswith(".dir"))[-1]
         for oid, data in all_objects(t).items():
             if cfg["scenario"] == "verify-transfer" and oid == first_file:
                 data = b"bit-rot:" + data   # a protected source object that no longer matches its name
+            if cfg["scenario"] == "store-transfer-src-partial" and oid == partial_file:
+                # an earlier crash left this object of the source half written and unprotected: the source's
+                # own integrity check discards it, so the file is missing on both sides
+                put_raw(src, oid, data[: len(data) // 2], protect=False)
+                continue
             put_raw(src, oid, data)
     if cfg["scenario"] == "verify-transfer-dir":
         # a generic remote whose directory object was cut short by an interrupted upload; the listing is
@@ -113,7 +119,7 @@ def body(root, cfg, phase, arm):
         install_order_seam([cfg["first"]])
     idx = None
     try:
-        if sc in ("store-transfer", "verify-transfer", "bulk-transfer"):
+        if sc in ("store-transfer", "verify-transfer", "bulk-transfer", "store-transfer-src-partial"):
             idx = ObjectDBIndex(os.path.join(root, "idx"), "dest")
         arm()
         if sc in ("stage-transfer", "upload"):
@@ -145,7 +151,7 @@ def body(root, cfg, phase, arm):
             index.storage_map.add_data(FileStorage(key=dk, fs=memfs, path=MEM_ROOT))
             index = imd5(index, state=state)
             isave(index, odb=odb)
-        elif sc in ("store-transfer", "verify-transfer", "bulk-transfer"):
+        elif sc in ("store-transfer", "verify-transfer", "bulk-transfer", "store-transfer-src-partial"):
             src = make_odb("local", os.path.join(root, "src"))
             ids = {hi(o) for o in all_objects(t)}
             transfer(src, odb, ids, dest_index=idx, hardlink=False, verify=sc == "verify-transfer")
@@ -373,8 +379,12 @@ def configs(tier):
             if sc in ("index-save-2fs", "index-save-2caches") and second_fs_dir(t) is None:
                 continue
             for initial in ("empty", "half"):
+                if sc == "store-transfer-src-partial" and initial == "half" and sorted(listing(t).values())[0] == \
+                        sorted(o for o, dta in all_objects(t).items() if dta and not o.endswith(".dir"))[-1]:
+                    continue   # the destination already holds the damaged file: same as plain store-transfer
                 firsts = [None]
-                if sc in ("stage-transfer", "store-transfer", "upload", "verify-transfer", "verify-transfer-dir"):
+                if sc in ("stage-transfer", "store-transfer", "upload", "verify-transfer", "verify-transfer-dir",
+                          "store-transfer-src-partial"):
                     objs = sorted(all_objects(t))
                     firsts = objs if tier == "thorough" else [objs[0], objs[-1]]
                 for first in firsts:
@@ -387,7 +397,7 @@ def configs(tier):
 def run(ctx):
     ctx.rule = (
         "E4: scenarios {stage+transfer into a local store with state, index build/md5/save of nested "
-        "directories, closed store-to-store transfer with a remote index, upload staging, verifying store-to-store transfer from a source holding a corrupt (protected) object, index save of an index whose deepest directory lives on a second (in-memory) file system, verifying index save} x trees (nested, "
+        "directories, closed store-to-store transfer with a remote index, upload staging, verifying store-to-store transfer from a source holding a corrupt (protected) object, index save of an index whose deepest directory lives on a second (in-memory) file system, verifying index save, store-to-store transfer from a source one of whose objects is a half-written unprotected leftover} x trees (nested, "
         "duplicate + empty contents; thorough: + CRLF) x initial store {empty, half populated} x which object is "
         "first in an add batch x privilege {as invoked, CAP_DAC_OVERRIDE/FOWNER dropped}: the child is killed "
         "before every file-system-mutating event (audit hook) and in the middle of every byte copy; audit; "
